@@ -90,8 +90,11 @@ def expected_value(v, cfg, spec):
 def check(case):
     from vlib.harness import virtual_time
     env = Env(pieces=case.get("pieces") or None)
-    with virtual_time(env.clock):
-        return _check(case, env)
+    try:
+        with virtual_time(env.clock):
+            return _check(case, env)
+    finally:
+        c15.Nesting.hook = None
 
 
 def _check(case, env):
@@ -109,6 +112,8 @@ def _check(case, env):
     else:
         sd = make_serde(spec)
     if sd is not None:
+        # (a value of the Nesting kind serializes another value through the same serializer object while it is being pickled)
+        c15.Nesting.hook = lambda other: sd.serialize("another-key", other)
         if case.get("serde_as") == "functions":
             # the same serializer handed over as the two legacy functions
             kw["serializer"], kw["deserializer"] = sd.serialize, sd.deserialize
@@ -430,6 +435,15 @@ def grid_cases(tier, seed):
                     yield {"kind": kind, "cfg": {"key_prefix": pfx, "allow_unicode_keys": True, "encoding": "utf-8"}, "serde": spec,
                            "items": [["a", ("bytes", b"raw\r\nbytes")], [b"b", ("str", "zw\u00f6lf")], ["\u00fc", ("int", 3)], ["d", ("noise", 5000, 1)]], "absent": ["nope"],
                            "store": "set_many" if pfx else "set", "fetch": "get_many" if kind.startswith("hash") else "gets", "coll": "list", "pieces": [4096], "noreply": not pfx, "event": ev}
+    # values whose pickling runs application code that serializes another value through the same serializer object
+    for kind in ("client", "pooled", "hash"):
+        for spec in (("pickle", 0), ("pickle", 2), ("pickle", 5), ("compressed", 10), ("compressed-default",)):
+            for store, fetch in (("set", "get"), ("set_many", "get_many"), ("add", "gets")):
+                yield {"kind": kind, "cfg": {"key_prefix": b"n:", "allow_unicode_keys": False, "encoding": "ascii"}, "serde": spec,
+                       "items": [["n1", ("nesting", ("str", "outer"), ("list", [("int", 1), ("int", 2), ("int", 3)]))], ["n2", ("bytes", b"plain")],
+                                 ["n3", ("nesting", ("bytes", b"o" * 500), ("dict", [[("str", "session"), ("str", "bob")]]))],
+                                 ["n4", ("list", [("nesting", ("int", 1), ("str", "x" * 450)), ("str", "after")])]],
+                       "absent": [], "store": store, "fetch": fetch, "coll": "list", "pieces": None, "noreply": False}
     # the legacy spellings of a serializer: the two functions instead of the object, and a deserializer function alone
     for kind in ("client", "pooled", "hash", "hash-pooled"):
         for fetch in ("get", "gets", "gat", "gats", "get_many", "gets_many"):
